@@ -97,7 +97,7 @@ package packetmap
 //@
 //@ func addMapping
 //@   safe
-//@   props C01 C12
+//@   props C01 C03 C12
 //@   requires nonnil: m != nil
 //@   requires shape: shape(m) && short(m)
 //@   -- the packet is the newest one, at most 8192 ahead of the expected one, and the newest interval ends where the withheld packets begin
